@@ -2,7 +2,7 @@
 # usage: tools/mutant_alt.sh <patch.diff> <property id>...  - like mutant.sh, but on a CLONE of /repo (/tmp/alt/repo,
 # kept at /repo's HEAD) with its own build tree and output directory, so that it can run while checks use /repo.
 patch="$(readlink -f "$1")"; shift
-A=/tmp/alt; mkdir -p $A/out
+A=${ALT_DIR:-/tmp/alt}; mkdir -p $A/out
 if [ ! -d $A/repo/.git ]; then git clone -q /repo $A/repo || exit 2; fi
 cd $A/repo || exit 2
 git checkout -q -- . ; git fetch -q origin && git reset -q --hard origin/main
